@@ -299,7 +299,37 @@ func goCuratedWorlds() []wWorld {
 	sa.Msgs = []wMsg{{Head: mh("A", f("x", 1)), Nested: []wMsg{}}}
 	sb := emptyF("beta/b.proto", "sh.b", "shared", "alpha/a.proto")
 	sb.Msgs = []wMsg{{Head: mh("B", wField{Name: "a", Number: 1, Label: 1, Type: 11, TypeName: ".sh.a.A"}), Nested: []wMsg{}}}
+	// every ordered choice of three of these member names, each a plain field or a oneof (reserved
+	// when its first member is met): all the ways an appended underscore can run into an earlier
+	// name, an earlier getter, or a getter given up by a oneof
+	uq := emptyF("uniq.proto", "uniq", "example.com/uniq")
+	{
+		pool := []string{"foo", "get_foo", "foo_", "get_foo_", "get_get_foo"}
+		for a := range pool {
+			for b := range pool {
+				for c := range pool {
+					if a == b || a == c || b == c {
+						continue
+					}
+					for kinds := 0; kinds < 8; kinds++ {
+						m := wMsg{Head: mh(fmt.Sprintf("U%d", len(uq.Msgs))), Nested: []wMsg{}}
+						for k, nm := range []string{pool[a], pool[b], pool[c]} {
+							num := len(m.Head.Fields) + 1
+							if kinds&(1<<uint(k)) == 0 {
+								m.Head.Fields = append(m.Head.Fields, f(nm, num))
+								continue
+							}
+							m.Head.Fields = append(m.Head.Fields, of(fmt.Sprintf("z%d", k), num, len(m.Head.Oneofs)), of(fmt.Sprintf("y%d", k), num+1, len(m.Head.Oneofs)))
+							m.Head.Oneofs = append(m.Head.Oneofs, nm)
+						}
+						uq.Msgs = append(uq.Msgs, m)
+					}
+				}
+			}
+		}
+	}
 	return []wWorld{{Files: []wFile{fl}, Targets: []string{"probe.proto"}},
+		{Files: []wFile{uq}, Targets: []string{"uniq.proto"}},
 		{Files: []wFile{sa, sb}, Targets: []string{"alpha/a.proto", "beta/b.proto"}},
 		{Files: []wFile{r0, r1, r2}, Targets: []string{"f1.proto", "dir0/f2.proto"}},
 		{Files: []wFile{p3}, Targets: []string{"probe3.proto"}},
